@@ -34,6 +34,10 @@ class Cancelled(BaseException):
     pass
 
 
+class HarnessCallbackError(BaseException):
+    pass
+
+
 class Violation(Exception):
     def __init__(self, prop, oracle, cls, detail, buf=None):
         Exception.__init__(self, '%s/%s %s' % (prop, oracle, detail))
@@ -79,7 +83,14 @@ def install():
             return DISABLE
         run = CURRENT[0]
         if run is not None:
-            run.point(code, line)
+            try:
+                run.point(code, line)
+            except Exception as e:
+                # a mistake of the harness inside the callback must never
+                # look like an exception raised by the library
+                import traceback
+                raise HarnessCallbackError('%r\n%s' % (
+                    e, traceback.format_exc()[-1500:]))
 
     mon.register_callback(TOOL, mon.events.LINE, on_line)
     mon.set_events(TOOL, mon.events.LINE)
@@ -274,7 +285,8 @@ class RunB:
         tid = self.current
         if code is not None and self.cancels and \
                 self.step >= self.cancels[0] and self.in_lib[tid] and \
-                not _is_with_line(code, line):
+                not _is_with_line(code, line) and \
+                not lib.holds_library_lock():
             self.cancels.pop(0)
             self.count(self.fired, 'cancel')
             self.ev('cancel', tid, os.path.basename(code.co_filename), line)
@@ -325,7 +337,8 @@ class RunB:
         others = [t for t in range(self.nthreads)
                   if t != tid and not self.finished[t]]
         if not others:
-            raise RuntimeError('library lock held by a finished thread')
+            raise lib.Deadlock('library lock held although no other thread '
+                               'is left to release it')
         self.lock_rr = getattr(self, 'lock_rr', 0) + 1
         target = others[self.lock_rr % len(others)]
         for t_, i_ in getattr(self, 'idents', {}).items():
@@ -534,6 +547,10 @@ class RunB:
                 self.abort = True
                 self.probe('run_aborted_by_step_budget')
                 res = ['aborted']
+            elif isinstance(e, lib.Deadlock):
+                # the call would block for ever: that is its result
+                self.probe('library_lock_deadlock')
+                res = ['EXC', 'sim.lib.Deadlock', str(e)]
             else:
                 raise
         rec.res = res
